@@ -182,7 +182,19 @@ type recorder struct {
 	mu    sync.Mutex
 	calls []callRec
 	gate  *gate
+	dc    *context.DataContext // the data context of the running case: Publish injects into it WHILE a rule runs
 }
+
+// Counter: an object a rule can obtain as a LOCAL (NewC) and the host can later inject under the same name (Publish):
+// calls through that name must then reach the injected one (Id 2), never the local (Id 1)
+type Counter struct {
+	Id  int64
+	N   int64
+	In  *Counter
+	rec *recorder
+}
+
+func (c *Counter) Add(n int64) int64 { c.N += n; c.rec.add("CAdd", c.Id, n); return c.N }
 type callRec struct {
 	Fn   string `json:"fn"`
 	Args []tval `json:"args"`
@@ -213,6 +225,10 @@ func (h *Host) PushSL(x int32) { h.rec.add("PushSL", x); h.SL = append(h.SL, x) 
 // Slot hands out a pointer INTO the host (to h.I64): a local bound to it and then re-assigned must be rebound, never written through
 func (h *Host) Slot() *int64 { h.rec.add("Slot"); return &h.I64 }
 
+// ShrinkSL cuts the slice field the rule may be ranging over down to its first element: forRange still visits every index
+// that existed when it started
+func (h *Host) ShrinkSL() { h.rec.add("ShrinkSL"); if len(h.SL) > 1 { h.SL = h.SL[:1] } }
+
 func (h Host) Echo(x int64) int64 { h.rec.add("Echo", x); return x }
 func (s Sub) EchoN(k int32) int32 { s.rec.add("EchoN", k); return k }
 
@@ -237,6 +253,19 @@ func catalogue(rec *recorder) map[string]interface{} {
 		"Two":   func(a int64, b float64) int64 { rec.add("Two", a, b); return a },
 		"Mix3":  func(a uint8, s string, c int32) int32 { rec.add("Mix3", a, s, c); return c },
 		"NoRet": func() { rec.add("NoRet") },
+		// a local object / function for the rule, and the host injecting objects under the SAME names while the rule runs
+		"NewC": func() *Counter { rec.add("NewC"); return &Counter{Id: 1, rec: rec, In: &Counter{Id: 11, rec: rec}} },
+		"NewF": func() func(int64) int64 {
+			rec.add("NewF")
+			return func(x int64) int64 { rec.add("LocalF", x); return x + 1000 }
+		},
+		"Publish": func() {
+			rec.add("Publish")
+			if rec.dc != nil {
+				rec.dc.Add("acc", &Counter{Id: 2, rec: rec, In: &Counter{Id: 22, rec: rec}})
+				rec.dc.Add("fn", func(x int64) int64 { rec.add("HostF", x); return x + 1 })
+			}
+		},
 		"Boom":  func() { panic("catalogue Boom") },
 		// panics whose VALUE is an error: an explicit panic(err), and a runtime error raised inside the Go function
 		"BoomErr": func() { panic(fmt.Errorf("catalogue BoomErr")) },
@@ -709,6 +738,7 @@ func runLangCase(c *lCase) lObs {
 	obs := lObs{ID: c.ID, Cites: [][2]int{}, Results: map[string]tval{}, Calls: []callRec{}, Store: []injDump{}}
 	rec := &recorder{}
 	dc := context.NewDataContext()
+	rec.dc = dc
 	var builts []*built
 	for _, d := range c.Inject {
 		b, err := buildInj(d, rec)
